@@ -95,6 +95,8 @@ CONFIGS = [
     {"default_array_lengths": "2,0", "default_bytes_lengths": "65,32"},
     {"default_array_lengths": "1", "default_bytes_lengths": "32", "array_lengths": "a0={1,3},a1=2"},
     {"default_array_lengths": "0", "default_bytes_lengths": "0", "array_lengths": "a0=12,a1={10,3}"},
+    # members of struct elements are addressed by their qualified names; the top-level a1 entry does not apply to them
+    {"default_array_lengths": "1", "default_bytes_lengths": "32", "array_lengths": "a0[0].a1={3,40},a0[1].a1=5,a1=70,a0=2"},
     {"_names": "unnamed"},  # `function f(uint256, bytes memory)`: solc emits "" for every unnamed parameter / component
     {"_names": "unnamed", "default_array_lengths": "2,0", "default_bytes_lengths": "65,32"},
 ]
@@ -308,6 +310,45 @@ def expected_candidates(d, config):
     return [int(x) for x in str(txt).split(",")]
 
 
+def candidates_by_name(nm, is_array, config):
+    class _D:  # the shape expected_candidates() reads
+        pass
+
+    d = _D()
+    d.name = nm
+    d.typ = type("DynamicArrayType" if is_array else "BaseType", (), {})()
+    return expected_candidates(d, config)
+
+
+def expected_dyn_names(inputs, config):
+    """qualified names of every dynamic-size leaf (T[] and bytes/string), from the ABI item: members are `p.m`, elements `p[i]`; a T[] has
+    as many elements as its largest configured length"""
+    import re as _re
+
+    out = []
+
+    def walk(t, comps, nm):
+        m = _re.match(r"^(.*)\[(\d*)\]$", t)
+        if m:
+            inner, k = m.group(1), m.group(2)
+            if k == "":
+                out.append(nm)
+                n = max(candidates_by_name(nm, True, config))
+            else:
+                n = int(k)
+            for i in range(n):
+                walk(inner, comps, f"{nm}[{i}]")
+        elif t == "tuple":
+            for c in comps:
+                walk(c["type"], c.get("components", []), f"{nm}.{c['name']}")
+        elif t in ("bytes", "string"):
+            out.append(nm)
+
+    for it in inputs:
+        walk(it["type"], it.get("components", []), it["name"])
+    return out
+
+
 def strip_names(items):
     for it in items:
         it["name"] = ""
@@ -437,6 +478,14 @@ def check_signature(acc, types, config, do_reader=True):
     body = atoms[4:]
     tys = [parse_type(t) for t in types]
     size_names = [d.size_symbol.decl().name() for d in dyn]
+    # the dynamic parameters and their qualified names (p, p[i], p.member), derived here from the ABI item alone: --array-lengths
+    # addresses them by these names
+    if config.get("_names") != "unnamed":
+        mine = sorted(expected_dyn_names(e2e.abi_of(name)["inputs"], config))
+        theirs = sorted(d.name for d in dyn)
+        if mine != theirs:
+            acc.violation(f"names:{name}:{cfgs}", f"{name} [{cfgs}]: the dynamic parameters are named {theirs}; by the ABI item they are {mine} (these names select the --array-lengths entries)", case)
+            return
     # candidate lists must be what the configuration says (read here independently of halmos's option parsers)
     for d in dyn:
         want = expected_candidates(d, config)
